@@ -46,6 +46,9 @@ Value& TUPExpression::value(Context & ctx) const
     Value& val = a->value(ctx); /* execute expression */
     if (val.type() == Type::NO_TYPE)
       throw RuntimeError(EXC_RT_COMPOUND_OPAQUE);
+    /* nesting and table are not allowed */
+    if (val.type().level() > 0 || val.type() == Type::ROWTYPE)
+      throw RuntimeError(EXC_RT_FUNC_ARG_TYPE_S, KEYWORDS[FUNC_TUP]);
     if (val.lvalue())
       items.push_back(val.clone());
     else
